@@ -103,6 +103,21 @@ func (c *c06World) implTree(p string) []string {
 				fs = append(fs, "UNRESOLVABLE")
 			}
 		}
+		// ... and no other feature number of this entity resolves to anything (a feature that was withdrawn by a
+		// later announcement is gone)
+		present := map[uint]bool{}
+		for _, f := range e.Features() {
+			present[uint(*f.Address().Feature)] = true
+		}
+		for n := uint(0); n <= 9; n++ {
+			if present[n] {
+				continue
+			}
+			fa := &model.FeatureAddressType{Device: e.Address().Device, Entity: e.Address().Entity, Feature: util.Ptr(model.AddressFeatureType(n))}
+			if dev.FeatureByAddress(fa) != nil || e.FeatureOfAddress(fa.Feature) != nil {
+				fs = append(fs, fmt.Sprintf("PHANTOM-FEATURE-%d", n))
+			}
+		}
 		sort.Strings(fs)
 		if dev.Entity(e.Address().Entity) != e {
 			fs = append(fs, "ENTITY-UNRESOLVABLE")
